@@ -256,6 +256,7 @@ type Obligation struct {
 	kfName   string
 	Auto     bool // helper obligation of an uncontracted loop: never named in the ledger, always checked
 	Cheap    bool // package sweep: only the short focused query is tried
+	Retried  bool // no definite answer within the limit on the first pass; decided again alone with a longer limit
 }
 
 type Log struct {
@@ -847,6 +848,7 @@ type dischargeOpts struct {
 	timeoutS int
 	agree    bool
 	workers  int
+	focusedS int // limit of the focused-slice stage (default 4 s)
 }
 
 func discharge(l *Log, extraPrelude string, obs []*Obligation, o dischargeOpts) {
@@ -870,6 +872,9 @@ func discharge(l *Log, extraPrelude string, obs []*Obligation, o dischargeOpts) 
 				_ = os.WriteFile(ff, []byte(fq), 0o644)
 				_ = os.WriteFile(ff+".cvc5", []byte(strings.Replace(fq, "(set-logic ALL)", "(set-logic AUFNIRA)", 1)), 0o644)
 				ft := 4
+				if o.focusedS > 0 {
+					ft = o.focusedS
+				}
 				if o.timeoutS < ft {
 					ft = o.timeoutS
 				}
